@@ -214,6 +214,7 @@ class Stats:
         self.known = Counter()
         self.violations = []  # list of dict(case=..., msg=...)
         self.extra = {}
+        self.known_lines = []  # KNOWN-FINDING lines from dedicated probes (main process only)
 
     def merge(self, o):
         self.evals += o.evals
@@ -335,8 +336,10 @@ def finish(pid, tier, seed, level, stats, rule, t0, replay_fn=None, assumptions=
     wall = time.time() - t0
     write_evidence(pid, tier, seed, level, stats, rule, wall, assumptions, extra, violations=len(confirmed))
     printed = set()
+    for ln in stats.known_lines:
+        print("KNOWN-FINDING: property=%s %s" % (pid, ln))
     for kf, v in known_hits:
-        if kf["key"] not in printed:
+        if kf["key"] not in printed and kf["what"] not in stats.known_lines:
             printed.add(kf["key"])
             print("KNOWN-FINDING: property=%s %s" % (pid, kf["what"]))
     for path, msg in confirmed[:5]:
